@@ -182,4 +182,262 @@ theorem C01_iso_hms_string (st : PSettings) (ho : isoOrder st.order) (y m d h mi
   rw [classify_iso_hms y m d h mi s hy hm hdd hh hmi hs]
   exact C01_iso_hms st ho y m d h mi s hd ht (pad4c y) (pad2c m) (pad2c d) rfl false false
 
+
+/-! ## `YYYY-MM-DDThh:mm:ss` -/
+
+theorem tkCls_t : tkCls 't' = 1 := by decide
+
+theorem tokenize_iso_T (y m d h mi s : Nat) (hy : y ≤ 9999) (hm : m < 100) (hd : d < 100) (hh : h < 100) (hmi : mi < 100) (hs : s < 100) :
+    tokenize (renderIsoDate y m d ++ ['t'] ++ clockHMS h mi s) =
+      .ok [(pad4c y, 0), (['-'], 2), (pad2c m, 0), (['-'], 2), (pad2c d, 0), (['t'], 1), (clockHMS h mi s, 0)] := by
+  have y1 : y / 1000 < 10 := by omega
+  have y2 : y / 100 % 10 < 10 := by omega
+  have y3 : y / 10 % 10 < 10 := by omega
+  have y4 : y % 10 < 10 := by omega
+  have m1 : m / 10 < 10 := by omega
+  have m2 : m % 10 < 10 := by omega
+  have d1 : d / 10 < 10 := by omega
+  have d2 : d % 10 < 10 := by omega
+  have h1 : h / 10 < 10 := by omega
+  have h2 : h % 10 < 10 := by omega
+  have i1 : mi / 10 < 10 := by omega
+  have i2 : mi % 10 < 10 := by omega
+  have s1 : s / 10 < 10 := by omega
+  have s2 : s % 10 < 10 := by omega
+  simp [tokenize, tokGo, renderIsoDate, clockHMS, pad4c, pad2c, tkCls_dch, tkCls_dash, tkCls_colon, tkCls_t,
+    y1, y2, y3, y4, m1, m2, d1, d2, h1, h2, i1, i2, s1, s2]
+
+theorem classify_iso_T (y m d h mi s : Nat) (hy : y ≤ 9999) (hm : m < 100) (hd : d < 100) (hh : h < 100) (hmi : mi < 100) (hs : s < 100) :
+    classify #[(pad4c y, 0), (['-'], 2), (pad2c m, 0), (['-'], 2), (pad2c d, 0), (['t'], 1), (clockHMS h mi s, 0)] =
+      [rY (pad4c y) y, rS (pad2c m) m true, rS (pad2c d) d true, rT, rClock (clockHMS h mi s) false] := by
+  have h1 : h / 10 < 10 := by omega
+  have h2 : h % 10 < 10 := by omega
+  have ec : clockHMS h mi s = dch (h / 10) :: dch (h % 10) :: ':' :: (pad2c mi ++ [':'] ++ pad2c s) := by simp [clockHMS, pad2c]
+  have c1 := dirNum_clock_none _ _ h1 h2 (pad2c mi ++ [':'] ++ pad2c s) 'm' (by simp) DT.mo
+  have c2 := dirNum_clock_none _ _ h1 h2 (pad2c mi ++ [':'] ++ pad2c s) 'd' (by simp) DT.d
+  have c3 := dirNum_clock_none _ _ h1 h2 (pad2c mi ++ [':'] ++ pad2c s) 'y' (by simp) DT.y
+  have c4 := dirNum_clock_none _ _ h1 h2 (pad2c mi ++ [':'] ++ pad2c s) 'Y' (by simp) DT.y
+  rw [← ec] at c1 c2 c3 c4
+  have hno : ∀ t ∈ [(['-'], 2), (pad2c m, 0), (['-'], 2), (pad2c d, 0), (['t'], 1), (clockHMS h mi s, 0)], ¬ '.' ∈ (t : List Char × Nat).1 := by
+    intro t ht
+    simp only [List.mem_cons, List.not_mem_nil, or_false] at ht
+    rcases ht with rfl | rfl | rfl | rfl | rfl | rfl
+    · simp
+    · exact colon_pad2 m hm '.' (by simp)
+    · simp
+    · exact colon_pad2 d hd '.' (by simp)
+    · simp
+    · exact clock_no_dot h mi s hh hmi hs
+  have i1 : mi / 10 < 10 := by omega
+  have i2 : mi % 10 < 10 := by omega
+  have s1 : s / 10 < 10 := by omega
+  have s2 : s % 10 < 10 := by omega
+  have k1 : allAsciiDigits (clockHMS h mi s) = false := by
+    have hc : asciiDigit ':' = false := by decide
+    simp [allAsciiDigits, clockHMS, pad2c, hc]
+  have k2 : meridSearch (clockHMS h mi s) = none := by
+    simp [meridSearch, clockHMS, pad2c, dch_ne, h1, h2, i1, i2, s1, s2]
+  have k3 : ¬ clockHMS h mi s ∈ Gen.parserSkipTokensC := by
+    simp [Gen.parserSkipTokensC, clockHMS, pad2c]
+  have k4 : ':' ∈ clockHMS h mi s := by simp [clockHMS]
+  have k5 : clockHMS h mi s ≠ ['.'] := by simp [clockHMS, pad2c]
+  have k5' : ¬ (clockHMS h mi s = ['.']) := k5
+  have t1 : allAsciiDigits ['t'] = false := by decide
+  have t2 : ∀ (a : Nat), nameIdx dayNamesC ['t'] = some a ∨ nameIdx dayNamesC ['t'] = none ∧ nameIdx dayAbbrC ['t'] = some a →
+      ∀ (x : String), x ∈ Gen.weekdayAbbr → ¬x.toList = [lowerA 't'] := by
+    intro a ha
+    have e1 : nameIdx dayNamesC ['t'] = none := by decide +kernel
+    have e2 : nameIdx dayAbbrC ['t'] = none := by decide +kernel
+    rw [e1, e2] at ha
+    rcases ha with ha | ⟨_, ha⟩ <;> cases ha
+  have t3 : nameIdx monthNamesC ['t'] = none := by decide +kernel
+  have t4 : nameIdx monthAbbrC ['t'] = none := by decide +kernel
+  have t5 : microSearch ['t'] = none := by decide
+  have t6 : meridSearch ['t'] = none := by decide
+  have t7 : ['t'] ∈ Gen.parserSkipTokensC := by decide
+  simp [classify, rY, rS, rT, rClock, tiYear4, tiSmall, fmt_m, fmt_d, fmt_y, fmt_Y, dirNum_m2, dirNum_d2, dirNum_y2, dirNum_Y2, dirNum_Y4, dirNum_four_none,
+    hy, hm, hd, List.zipIdx, c1, c2, c3, c4, k5', t1, t3, t4, t5, t6, t7, k1, k2, k3, k4,
+    allAscii_pad4 y hy, natOfAscii_pad4 y hy, micro_pad4 y hy, merid_pad4 y hy, skip_pad4 y hy, colon_pad4 y hy,
+    allAscii_pad2 m hm, natOfAscii_pad2 m hm, micro_pad2 m hm, merid_pad2 m hm, skip_pad2 m hm, colon_pad2 m hm ':' (by simp),
+    allAscii_pad2 d hd, natOfAscii_pad2 d hd, micro_pad2 d hd, merid_pad2 d hd, skip_pad2 d hd, colon_pad2 d hd ':' (by simp)]
+  exact ⟨dotAfter_false _ hno _, dotAfter_false _ hno _, dotAfter_false _ hno _, ⟨t2, dotAfter_false _ hno _⟩, dotAfter_false _ hno _⟩
+
+theorem stripWs_t : stripWs ['t'] = ['t'] := by decide
+
+/-- **C01_iso_T_string**: `YYYY-MM-DDThh:mm:ss` (as the pipeline hands it to the absolute parser: lower-cased) -/
+theorem C01_iso_T_string (st : PSettings) (ho : isoOrder st.order) (y m d h mi s : Nat) (hd : DateOk y m d) (ht : TimeOk h mi s) :
+    absParse st (renderIsoDate y m d ++ ['t'] ++ clockHMS h mi s) =
+      .ok ({ y := y, mo := m, d := d, h := h, mi := mi, s := s }, if st.timeAsPeriod then .time else .day) := by
+  have hy : y ≤ 9999 := hd.y2
+  have hm : m < 100 := by have := hd.m2; omega
+  have hdd : d < 100 := by have := hd.d2; have := dim_le_31 y m; omega
+  have hh : h < 100 := by have := ht.h23; omega
+  have hmi : mi < 100 := by have := ht.m59; omega
+  have hs : s < 100 := by have := ht.s59; omega
+  unfold absParse
+  rw [tokenize_iso_T y m d h mi s hy hm hdd hh hmi hs]
+  simp only [bind, Except.bind, List.map_cons, List.map_nil, stripWs_pad4 y hy, stripWs_pad2 m hm, stripWs_pad2 d hdd, stripWs_dash,
+    stripWs_clock h mi s hh hs, stripWs_t]
+  rw [classify_iso_T y m d h mi s hy hm hdd hh hmi hs]
+  exact C01_iso_hms st ho y m d h mi s hd ht (pad4c y) (pad2c m) (pad2c d) rfl true false
+
+/-! ## `YYYY-MM-DD hh:mm:ss.ffffff` -/
+
+theorem tkCls_dot : tkCls '.' = 2 := by decide
+
+theorem tokenize_iso_us (y m d h mi s us : Nat) (hy : y ≤ 9999) (hm : m < 100) (hd : d < 100) (hh : h < 100) (hmi : mi < 100) (hs : s < 100) (hus : us ≤ 999999) :
+    tokenize (renderIsoDate y m d ++ [' '] ++ clockHMS h mi s ++ ['.'] ++ frac6 us) =
+      .ok [(pad4c y, 0), (['-'], 2), (pad2c m, 0), (['-'], 2), (pad2c d, 0), ([' '], 2), (clockHMS h mi s, 0), (['.'], 2), (frac6 us, 0)] := by
+  have y1 : y / 1000 < 10 := by omega
+  have y2 : y / 100 % 10 < 10 := by omega
+  have y3 : y / 10 % 10 < 10 := by omega
+  have y4 : y % 10 < 10 := by omega
+  have m1 : m / 10 < 10 := by omega
+  have m2 : m % 10 < 10 := by omega
+  have d1 : d / 10 < 10 := by omega
+  have d2 : d % 10 < 10 := by omega
+  have h1 : h / 10 < 10 := by omega
+  have h2 : h % 10 < 10 := by omega
+  have i1 : mi / 10 < 10 := by omega
+  have i2 : mi % 10 < 10 := by omega
+  have s1 : s / 10 < 10 := by omega
+  have s2 : s % 10 < 10 := by omega
+  have f1 : us / 100000 < 10 := by omega
+  have f2 : us / 10000 % 10 < 10 := by omega
+  have f3 : us / 1000 % 10 < 10 := by omega
+  have f4 : us / 100 % 10 < 10 := by omega
+  have f5 : us / 10 % 10 < 10 := by omega
+  have f6 : us % 10 < 10 := by omega
+  simp [tokenize, tokGo, renderIsoDate, clockHMS, frac6, pad4c, pad2c, tkCls_dch, tkCls_dash, tkCls_colon, tkCls_space, tkCls_dot,
+    y1, y2, y3, y4, m1, m2, d1, d2, h1, h2, i1, i2, s1, s2, f1, f2, f3, f4, f5, f6]
+
+theorem dirNum_six_none (us : Nat) (hus : us ≤ 999999) (c : Char) (hc : c = 'm' ∨ c = 'd' ∨ c = 'y' ∨ c = 'Y') (sel : DT → Nat) :
+    dirNum (frac6 us) ['%', c] sel = none := by
+  have f1 : us / 100000 < 10 := by omega
+  have f2 : us / 10000 % 10 < 10 := by omega
+  have f3 : us / 1000 % 10 < 10 := by omega
+  have f4 : us / 100 % 10 < 10 := by omega
+  unfold dirNum
+  rw [dpStrptime_dir1 _ c hc]
+  simp only [frac6]
+  rcases hc with rfl | rfl | rfl | rfl
+  · rw [dir_two_m true [] _ _ f1 f2 _ {} (fun fd' => end_rejects _ _ fd'), end_rejects]; simp
+  · rw [dir_two_d true [] _ _ f1 f2 _ {} (fun fd' => end_rejects _ _ fd'), end_rejects]; simp
+  · rw [dir_two_y true [] _ _ f1 f2 _ {} (fun fd' => end_rejects _ _ fd'), end_rejects]; simp
+  · rw [dir_four_Y true [] _ _ _ _ f1 f2 f3 f4 _ {}, end_rejects]
+
+/-- the merged "hour:minute" candidate built from a clock token and the fraction digits is never an `H:MM` text -/
+theorem hourMinuteOk_clock_frac (h mi s : Nat) (hh : h ≤ 23) (hmi : mi ≤ 59) (rest : List Char) :
+    hourMinuteOk (clockHMS h mi s ++ ':' :: rest) = false := by
+  have h1 : h / 10 < 10 := by omega
+  have h2 : h % 10 < 10 := by omega
+  have i1 : mi / 10 < 10 := by omega
+  have i2 : mi % 10 < 10 := by omega
+  have eh : 10 * (h / 10) + h % 10 = h := by omega
+  have em : 10 * (mi / 10) + mi % 10 = mi := by omega
+  unfold hourMinuteOk
+  simp only [clockHMS, pad2c, List.cons_append, List.nil_append, List.append_assoc]
+  rw [dir_two_H true _ _ _ h1 h2 _ _ (fun fd' => lit_rejects_digit true ':' _ _ h2 _ fd' (by simp)), eh]
+  simp only [twoOk, hh, decide_true, if_true]
+  rw [lit_eq true ':' _ _ _ (by simp)]
+  rw [dir_two_M true _ _ _ i1 i2 _ _ (fun fd' => end_rejects _ _ fd'), em]
+  simp [twoOk, hmi, end_rejects]
+
+theorem frac6_facts (us : Nat) (hus : us ≤ 999999) :
+    allAsciiDigits (frac6 us) = true ∧ natOfAscii (frac6 us) = us ∧ microSearch (frac6 us) = some (frac6 us) ∧ meridSearch (frac6 us) = none ∧
+      ¬ frac6 us ∈ Gen.parserSkipTokensC ∧ ¬ ':' ∈ frac6 us ∧ ¬ '.' ∈ frac6 us := by
+  have f1 : us / 100000 < 10 := by omega
+  have f2 : us / 10000 % 10 < 10 := by omega
+  have f3 : us / 1000 % 10 < 10 := by omega
+  have f4 : us / 100 % 10 < 10 := by omega
+  have f5 : us / 10 % 10 < 10 := by omega
+  have f6 : us % 10 < 10 := by omega
+  refine ⟨?_, ?_, ?_, ?_, ?_, ?_, ?_⟩
+  · simp [allAsciiDigits, frac6, asciiDigit_dch, f1, f2, f3, f4, f5, f6]
+  · simp [natOfAscii, frac6, dch_toNat, f1, f2, f3, f4, f5, f6]; omega
+  · simp [microSearch, frac6, isDecDigit_dch, f1, f2, f3, f4, f5, f6, List.takeWhile]
+  · simp [meridSearch, frac6, dch_ne, f1, f2, f3, f4, f5, f6]
+  · simp [Gen.parserSkipTokensC, frac6]
+    intro e; exact absurd e.symm (dch_ne' _ f1 'm' (by simp))
+  · simp only [frac6, List.mem_cons, List.not_mem_nil, or_false, not_or]
+    exact ⟨dch_ne' _ f1 ':' (by simp), dch_ne' _ f2 ':' (by simp), dch_ne' _ f3 ':' (by simp), dch_ne' _ f4 ':' (by simp), dch_ne' _ f5 ':' (by simp), dch_ne' _ f6 ':' (by simp)⟩
+  · simp only [frac6, List.mem_cons, List.not_mem_nil, or_false, not_or]
+    exact ⟨dch_ne' _ f1 '.' (by simp), dch_ne' _ f2 '.' (by simp), dch_ne' _ f3 '.' (by simp), dch_ne' _ f4 '.' (by simp), dch_ne' _ f5 '.' (by simp), dch_ne' _ f6 '.' (by simp)⟩
+
+theorem classify_iso_us (y m d h mi s us : Nat) (hy : y ≤ 9999) (hm : m < 100) (hd : d < 100) (hh : h ≤ 23) (hmi : mi ≤ 59) (hs : s < 100) (hus : us ≤ 999999) :
+    classify #[(pad4c y, 0), (['-'], 2), (pad2c m, 0), (['-'], 2), (pad2c d, 0), ([], 2), (clockHMS h mi s, 0), (['.'], 2), (frac6 us, 0)] =
+      [rY (pad4c y) y, rS (pad2c m) m true, rS (pad2c d) d true, rClock (clockHMS h mi s) true, rFrac (frac6 us) (frac6 us) (some us)] := by
+  have h1 : h / 10 < 10 := by omega
+  have h2 : h % 10 < 10 := by omega
+  have hh' : h < 100 := by omega
+  have hmi' : mi < 100 := by omega
+  have ec : clockHMS h mi s = dch (h / 10) :: dch (h % 10) :: ':' :: (pad2c mi ++ [':'] ++ pad2c s) := by simp [clockHMS, pad2c]
+  have c1 := dirNum_clock_none _ _ h1 h2 (pad2c mi ++ [':'] ++ pad2c s) 'm' (by simp) DT.mo
+  have c2 := dirNum_clock_none _ _ h1 h2 (pad2c mi ++ [':'] ++ pad2c s) 'd' (by simp) DT.d
+  have c3 := dirNum_clock_none _ _ h1 h2 (pad2c mi ++ [':'] ++ pad2c s) 'y' (by simp) DT.y
+  have c4 := dirNum_clock_none _ _ h1 h2 (pad2c mi ++ [':'] ++ pad2c s) 'Y' (by simp) DT.y
+  rw [← ec] at c1 c2 c3 c4
+  have g1 := dirNum_six_none us hus 'm' (by simp) DT.mo
+  have g2 := dirNum_six_none us hus 'd' (by simp) DT.d
+  have g3 := dirNum_six_none us hus 'y' (by simp) DT.y
+  have g4 := dirNum_six_none us hus 'Y' (by simp) DT.y
+  obtain ⟨q1, q2, q3, q4, q5, q6, q7⟩ := frac6_facts us hus
+  have i1 : mi / 10 < 10 := by omega
+  have i2 : mi % 10 < 10 := by omega
+  have s1 : s / 10 < 10 := by omega
+  have s2 : s % 10 < 10 := by omega
+  have k1 : allAsciiDigits (clockHMS h mi s) = false := by
+    have hc : asciiDigit ':' = false := by decide
+    simp [allAsciiDigits, clockHMS, pad2c, hc]
+  have k2 : meridSearch (clockHMS h mi s) = none := by
+    simp [meridSearch, clockHMS, pad2c, dch_ne, h1, h2, i1, i2, s1, s2]
+  have k3 : ¬ clockHMS h mi s ∈ Gen.parserSkipTokensC := by
+    simp [Gen.parserSkipTokensC, clockHMS, pad2c]
+  have k4 : ':' ∈ clockHMS h mi s := by simp [clockHMS]
+  have k6 := hourMinuteOk_clock_frac h mi s hh hmi (frac6 us)
+  simp [classify, rY, rS, rClock, rFrac, tiYear4, tiSmall, fmt_m, fmt_d, fmt_y, fmt_Y, dirNum_m2, dirNum_d2, dirNum_y2, dirNum_Y2, dirNum_Y4, dirNum_four_none,
+    hy, hm, hd, List.zipIdx, c1, c2, c3, c4, g1, g2, g3, g4, q1, q2, q3, q4, q5, q6, k1, k2, k3, k4, k6,
+    allAscii_pad4 y hy, natOfAscii_pad4 y hy, micro_pad4 y hy, merid_pad4 y hy, skip_pad4 y hy, colon_pad4 y hy,
+    allAscii_pad2 m hm, natOfAscii_pad2 m hm, micro_pad2 m hm, merid_pad2 m hm, skip_pad2 m hm, colon_pad2 m hm ':' (by simp),
+    allAscii_pad2 d hd, natOfAscii_pad2 d hd, micro_pad2 d hd, merid_pad2 d hd, skip_pad2 d hd, colon_pad2 d hd ':' (by simp)]
+  have e0 : (pad4c y == pad4c y) = true := by simp
+  have e1 : (pad4c y == pad2c m) = false := by simp [pad4c, pad2c]
+  have e2 : (pad4c y == pad2c d) = false := by simp [pad4c, pad2c]
+  have e3 : (pad4c y == clockHMS h mi s) = false := by simp [pad4c, clockHMS, pad2c]
+  have e4 : (pad4c y == frac6 us) = false := by simp [pad4c, frac6]
+  have e5 : (pad2c m == clockHMS h mi s) = false := by simp [pad2c, clockHMS]
+  have e6 : (pad2c d == clockHMS h mi s) = false := by simp [pad2c, clockHMS]
+  have e7 : (pad2c m == frac6 us) = false := by simp [pad2c, frac6]
+  have e8 : (pad2c d == frac6 us) = false := by simp [pad2c, frac6]
+  have e9 : (clockHMS h mi s == frac6 us) = false := by simp [clockHMS, pad2c, frac6, dch_ne, i1]
+  have dd : ¬ '.' ∈ pad2c d := colon_pad2 d hd '.' (by simp)
+  have dm : ¬ '.' ∈ pad2c m := colon_pad2 m hm '.' (by simp)
+  by_cases hmd : pad2c m = pad2c d
+  · simp [List.findIdx?_cons, e0, e1, e2, e3, e4, e5, e6, e7, e8, e9, hmd, dd, q7]
+  · have e10 : (pad2c m == pad2c d) = false := by simpa using hmd
+    simp [List.findIdx?_cons, e0, e1, e2, e3, e4, e5, e6, e7, e8, e9, e10, dd, dm, q7]
+theorem stripWs_dot : stripWs ['.'] = ['.'] := by decide
+theorem stripWs_frac6 (us : Nat) (hus : us ≤ 999999) : stripWs (frac6 us) = frac6 us := by
+  have f1 : us / 100000 < 10 := by omega
+  have f6 : us % 10 < 10 := by omega
+  have := stripWs_digits (us / 100000) f1 (us % 10) f6 [dch (us / 10000 % 10), dch (us / 1000 % 10), dch (us / 100 % 10), dch (us / 10 % 10)]
+  simpa [frac6] using this
+
+/-- **C01_iso_us_string**: `YYYY-MM-DD hh:mm:ss.ffffff` — exact to the microsecond, from the characters of the string -/
+theorem C01_iso_us_string (st : PSettings) (ho : isoOrder st.order) (y m d h mi s us : Nat) (hd : DateOk y m d) (ht : TimeOk h mi s) (hus : us ≤ 999999) :
+    absParse st (renderIsoDate y m d ++ [' '] ++ clockHMS h mi s ++ ['.'] ++ frac6 us) =
+      .ok ({ y := y, mo := m, d := d, h := h, mi := mi, s := s, us := us }, if st.timeAsPeriod then .time else .day) := by
+  have hy : y ≤ 9999 := hd.y2
+  have hm : m < 100 := by have := hd.m2; omega
+  have hdd : d < 100 := by have := hd.d2; have := dim_le_31 y m; omega
+  have hh : h < 100 := by have := ht.h23; omega
+  have hmi : mi < 100 := by have := ht.m59; omega
+  have hs : s < 100 := by have := ht.s59; omega
+  unfold absParse
+  rw [tokenize_iso_us y m d h mi s us hy hm hdd hh hmi hs hus]
+  simp only [bind, Except.bind, List.map_cons, List.map_nil, stripWs_pad4 y hy, stripWs_pad2 m hm, stripWs_pad2 d hdd, stripWs_dash,
+    stripWs_clock h mi s hh hs, stripWs_space, stripWs_dot, stripWs_frac6 us hus]
+  rw [classify_iso_us y m d h mi s us hy hm hdd ht.h23 ht.m59 hs hus]
+  exact C01_iso_us st ho y m d h mi s us hd ht hus (pad4c y) (pad2c m) (pad2c d) (frac6 us) rfl false (some us)
+
 end DP
